@@ -436,6 +436,12 @@ def ReadsAt (s : State) (a : Nat) (ls : List Label) : Prop :=
   ∃ q cs', Hop s.octets s.cursor a q ∧ ((q = a ∧ cs' = a) ∨ (q < a ∧ cs' = q)) ∧
     NameAtC (GL s) s.octets s.cursor cs' q ls ∧ encLen ls + 1 ≤ 255
 
+/-- the contiguous octets a name occupies at `a`: literal labels `pre`, then the root label
+    (`k = |pre| + 1`) or the first octet of a pointer (`k = |pre| + 2`) -/
+def ChunkAt (oct : Bytes) (a k : Nat) : Prop :=
+  ∃ pre b, LabelsWF pre ∧ BytesAt oct a (pre.flatMap WName.encLabel ++ [b]) ∧
+    ((b = 0 ∧ k = encLen pre + 1) ∨ (isPtr b = true ∧ k = encLen pre + 2))
+
 /-- how names are compared in a mode: octet for octet in `CasePreserving`, ignoring ASCII case
     otherwise -/
 def effMode (m : CMode) : CMode := if m = .casePreserving then .casePreserving else .standard
@@ -456,7 +462,8 @@ structure NameSpec (s : State) (n : WName) (r : Out WriterErr (Option Prior) × 
       match the name given (octet for octet in `CasePreserving` mode, up to ASCII case otherwise) -/
   ok : ∀ p, r.1 = .ok p → WInv r.2 ∧ (∀ q, p = some q → Den r.2 q n) ∧ r.2.qname = s.qname ∧
     r.2.mostRecentOwner = s.mostRecentOwner ∧ r.2.mostRecentNameInRdata = s.mostRecentNameInRdata ∧
-    ∃ ls, ReadsAt r.2 s.cursor ls ∧ labelsMatch (effMode s.mode) n.labels ls = true
+    (∃ ls, ReadsAt r.2 s.cursor ls ∧ labelsMatch (effMode s.mode) n.labels ls = true) ∧
+    ChunkAt r.2.octets s.cursor (r.2.cursor - s.cursor)
   /-- and the pointer log stays sound -/
   log : ∀ p, r.1 = .ok p → PtrLogOK s → PtrLogOK r.2
 
@@ -578,7 +585,8 @@ theorem writeUncompressedName_spec (n : WName) (s : State) (h : WInv s) (hn : n.
     obtain ⟨_, hlt, b, hb0, hnp⟩ := nameAt_start (nameAtC_forget hC)
     exact ⟨s.cursor, s.cursor, .here hlt hb0 hnp, Or.inl ⟨rfl, rfl⟩, hC, by omega⟩
   refine ⟨hw, ?_, by rw [← hs']; rfl, by rw [← hs']; rfl, by rw [← hs']; rfl,
-    ⟨n.labels, hreadsU, labelsMatch_refl _ _⟩⟩
+    ⟨n.labels, hreadsU, labelsMatch_refl _ _⟩,
+    ⟨n.labels, 0, hwf, hb, Or.inl ⟨rfl, by show s'.cursor - s.cursor = _; rw [hcur, hwl]; omega⟩⟩⟩
   intro q hq
   rw [← hp] at hq
   show Den s' q n
@@ -628,7 +636,8 @@ theorem literal_ptr_state {s s3 : State} (h : WInv s) (e : Ext s s3) {pre tail :
     (hr : s3.mostRecentNameInRdata = s.mostRecentNameInRdata)
     (hbound : pre ≠ [] → encLen pre + encLen tail + 1 ≤ 255) :
     WInv s3 ∧ (∃ q, Hop s3.octets s3.cursor s.cursor q ∧ StoredAt s3 q (pre ++ tail) ∧
-      (pre ≠ [] → q = s.cursor)) ∧ ReadsAt s3 s.cursor (pre ++ tail) := by
+      (pre ≠ [] → q = s.cursor)) ∧ ReadsAt s3 s.cursor (pre ++ tail) ∧
+      ChunkAt s3.octets s.cursor (s3.cursor - s.cursor) := by
   have htail' : StoredAt s3 pp tail := storedAt_ext e htail
   obtain ⟨_, hpplt, b3, hb3, hnp3⟩ := nameAt_start htail
   have hb3' : s3.octets[pp]? = some b3 := by rw [e.pre pp hpplt]; exact hb3
@@ -667,7 +676,19 @@ theorem literal_ptr_state {s s3 : State} (h : WInv s) (e : Ext s s3) {pre tail :
       have hbd := hbound hne
       rw [← hpre]
       exact ⟨s.cursor, s.cursor, .here hlt hb0 hnp, Or.inl ⟨rfl, rfl⟩, hch, by rw [encLen_append]; omega⟩
-  refine ⟨?_, ⟨q, hq1, hq2, hq3⟩, hreads⟩
+  have hchunk : ChunkAt s3.octets s.cursor (s3.cursor - s.cursor) := by
+    refine ⟨pre, b1, hwf, ?_, Or.inr ⟨hisp, by rw [hcur]; omega⟩⟩
+    intro i hi
+    rw [List.length_append] at hi
+    simp only [List.length_cons, List.length_nil] at hi
+    have := hb i (by rw [hpb, List.length_append]; simp only [List.length_cons, List.length_nil]; omega)
+    rw [this, hpb]
+    by_cases hlt : i < (pre.flatMap WName.encLabel).length
+    · rw [List.getElem?_append_left hlt, List.getElem?_append_left hlt]
+    · have hi' : i = (pre.flatMap WName.encLabel).length := by omega
+      subst hi'
+      simp
+  refine ⟨?_, ⟨q, hq1, hq2, hq3⟩, hreads, hchunk⟩
   have hc12 := h.c12; have hav := h.cur_av
   refine ⟨by rw [hcur]; omega, by rw [e.available]; exact e.avail hav,
     by rw [e.available, e.size]; exact h.av_size, ?_, ?_, ?_, ?_, ?_, ?_⟩
@@ -760,12 +781,12 @@ theorem writeCompressedUnhintedName_spec (n : WName) (s : State) (h : WInv s) (h
         case lg =>
           exact ptrLog_literal (k := 0) hl e hst hpos hmax (by simp [pushed]; rfl) s.gCtx s.mode (by simp [pushed])
         simp only [Out.ok.injEq] at hp
-        obtain ⟨hw, _, hrd⟩ := literal_ptr_state (pre := []) h e (fun _ hl => by cases hl) hst hmax'
+        obtain ⟨hw, _, hrd, hck⟩ := literal_ptr_state (pre := []) h e (fun _ hl => by cases hl) hst hmax'
           (by simpa [pushed] using bytesAt_writeAt s.octets s.cursor (ptrBytes m.priorPointer)
                 (by have : (ptrBytes m.priorPointer).length = 2 := rfl; omega))
           (by simp [pushed, encLen]; rfl) (by simp [pushed, labelStartsFrom]) rfl rfl rfl (fun hne => absurd rfl hne)
         refine ⟨hw, ?_, rfl, rfl, rfl, ⟨ls, by simpa using hrd,
-          labelsMatch_eff (by have := hmatch; rw [hk0] at this; simpa using this)⟩⟩
+          labelsMatch_eff (by have := hmatch; rw [hk0] at this; simpa using this)⟩, hck⟩
         intro q hq
         rw [← hp] at hq
         cases hq
@@ -800,7 +821,7 @@ theorem writeCompressedUnhintedName_spec (n : WName) (s : State) (h : WInv s) (h
             rw [hwt]; rfl
           have hwfpre : LabelsWF (List.take m.startColumn n.labels) :=
             fun l hl => wf_labels hn l (List.mem_of_mem_take hl)
-          obtain ⟨hw, ⟨q, _, hq2, hq3⟩, hrd⟩ := literal_ptr_state (pre := List.take m.startColumn n.labels) h e
+          obtain ⟨hw, ⟨q, _, hq2, hq3⟩, hrd, hck⟩ := literal_ptr_state (pre := List.take m.startColumn n.labels) h e
             hwfpre hst hmax'
             (by
               simp only [pushed, o2, c2, ← hwt]
@@ -828,7 +849,7 @@ theorem writeCompressedUnhintedName_spec (n : WName) (s : State) (h : WInv s) (h
             by simp only [pushed]; rw [← hs2]; rfl, ⟨_, hrd, by
               have := labelsMatch_append (mode := effMode s.mode)
                 (labelsMatch_refl _ (List.take m.startColumn n.labels)) (labelsMatch_eff hmatch)
-              rwa [List.take_append_drop] at this⟩⟩
+              rwa [List.take_append_drop] at this⟩, hck⟩
           intro q' hq'
           rw [← hp] at hq'
           cases hh : hintPointerNew s.cursor with
@@ -871,11 +892,11 @@ theorem pushHinted_spec (q : Prior) (n : WName) (s : State) (h : WInv s) (hd : D
     simp only [Out.ok.injEq] at hp
     have hd' := hd
     obtain ⟨_, hmax, _, ls, hst, hmt⟩ := hd'
-    obtain ⟨hw, _, hrd⟩ := literal_ptr_state (pre := []) h e (fun _ hl => by cases hl) hst hmax
+    obtain ⟨hw, _, hrd, hck⟩ := literal_ptr_state (pre := []) h e (fun _ hl => by cases hl) hst hmax
       (by simpa [pushed] using bytesAt_writeAt s.octets s.cursor (ptrBytes q.ptr)
             (by have : (ptrBytes q.ptr).length = 2 := rfl; omega))
       (by simp [pushed, encLen]; rfl) (by simp [pushed, labelStartsFrom]) rfl rfl rfl (fun hne => absurd rfl hne)
-    refine ⟨hw, ?_, rfl, rfl, rfl, ⟨ls, by simpa using hrd, by unfold effMode; rw [if_neg hm]; exact hmt⟩⟩
+    refine ⟨hw, ?_, rfl, rfl, rfl, ⟨ls, by simpa using hrd, by unfold effMode; rw [if_neg hm]; exact hmt⟩, hck⟩
     intro q' hq'
     rw [← hp] at hq'
     cases hq'
